@@ -34,6 +34,8 @@ extern crate serde;
 extern crate stable_deref_trait;
 #[cfg(feature = "unsize")]
 extern crate unsize;
+#[cfg(triomphe_verif)]
+extern crate triomphe_verif_rt;
 
 mod arc;
 mod arc_borrow;
